@@ -59,6 +59,7 @@ class Ref:
         self.nsteps = 0
         self.counts = {'C01': 0, 'C02': 0, 'C03': 0, 'C07': 0, 'C10': 0}
         self.trace = []
+        self.prefix = ''       # e.g. 'C11.' when the run belongs to another property's check
 
     # -- helpers -----------------------------------------------------------
     def on(self, r):
@@ -70,13 +71,13 @@ class Ref:
         if cond is True:
             return True
         self.counts[prop] += 1
-        return self.eng.check(cond, rule, msg, extra)
+        return self.eng.check(cond, self.prefix + rule, msg, extra)
 
     def alarm(self, prop, rule, msg, extra=None):
         if prop not in self.rules:
             return
         self.counts[prop] += 1
-        self.eng.alarm(rule, msg, extra)
+        self.eng.alarm(self.prefix + rule, msg, extra)
 
     def zeros(self, s, t):
         return (t,) + (0,) * (s.depth - 1)
@@ -250,6 +251,8 @@ class Ref:
                 if best >= 0:
                     exp[slot] = val
             kinds.add(self.kind(c))
+        for slot in skip:
+            exp.pop(slot, None)
         got = {}
         for eid, attrs in inputs.items():
             for attr, srcs in attrs.items():
@@ -262,7 +265,7 @@ class Ref:
         if exp != got:
             bad = sorted(set(k for k in set(exp) | set(got) if exp.get(k) != got.get(k)))
             ckinds = sorted({self.kind(c) for c in self.conns if c.ds == sid and (c.de, c.da, f"{c.ss}.{c.se}") in bad})
-            self.eng.alarm('C03.inputs', f'{sid}@{fmt(tau)}: expected {self._show(exp)} got {self._show(got)}',
+            self.eng.alarm(self.prefix + 'C03.inputs', f'{sid}@{fmt(tau)}: expected {self._show(exp)} got {self._show(got)}',
                            {'conn_kinds': ckinds, 'weak_only': bool(ckinds) and all('weak' in k for k in ckinds),
                             'fp': ['C03.inputs', ckinds]})
 
@@ -311,6 +314,10 @@ class Ref:
     def on_get_data_end(self, sid, data):
         s = self.sims[sid]
         st = s.inflight
+        if st is None:
+            # outputs were requested from a simulator that, as far as the scenario description goes, feeds nobody
+            self.alarm('C02', 'C02.unexpected_get_data', f'{sid} was asked for outputs {sorted(data)} although no connection leaves it')
+            return
         tau = st.tau
         ot = data.get('time', tau[0])
         if type(ot) is int and type(tau[0]) is int:
